@@ -92,24 +92,30 @@ theorem constraintLoop_op (op : VC) (more : List Tok)
       simp [constraintLoop, a, b, c]
   cases op <;> simp [opToks, constraintLoop, hstop]
 
+/-- the loop takes `COLON IDENT` pairs as long as a COLON comes next -/
+theorem versionLoop_colonTail (qs : List Str) (more : List Tok) (hm : cur more ≠ some .COLON) :
+    versionLoop (colonTail qs ++ more) = ⟨tks (colonTail qs), [], more⟩ := by
+  induction qs with
+  | nil =>
+    match more, hm with
+    | [], _ => simp [versionLoop]
+    | [c], hm =>
+      have : c.1 ≠ .COLON := by simpa [cur] using hm
+      simp [versionLoop, this]
+    | c :: t :: r, hm =>
+      have : c.1 ≠ .COLON := by simpa [cur] using hm
+      simp [versionLoop, this]
+  | cons q qs ih => simp [versionLoop, ih]
+
 theorem versionTok_ver (v : VersionA) (more : List Tok) (hm : cur more ≠ some .COLON) :
     versionTok (v.toks ++ more) = ⟨tks v.toks, [], more⟩ := by
-  cases he : v.epoch with
-  | none =>
-    cases more with
-    | nil => simp [VersionA.toks, he, versionTok, cur, bump1, PR.andThen, PR.nil]
-    | cons t r =>
-      have : t.1 ≠ .COLON := by simpa [cur] using hm
-      simp [VersionA.toks, he, versionTok, cur, bump1, PR.andThen, PR.nil, this]
-  | some e =>
-    simp [VersionA.toks, he, versionTok, cur, bump1, PR.andThen, expect]
+  simp [VersionA.toks, versionTok, cur, bump1, PR.andThen, versionLoop_colonTail _ _ hm]
 
 theorem opToks_noWs (op : VC) (more : List Tok) : NoWs (opToks op ++ more) := by
   cases op <;> exact noWs_cons _ _ rfl
 
 theorem verToks_noWs (v : VersionA) (more : List Tok) : NoWs (v.toks ++ more) := by
-  cases he : v.epoch <;> simp only [VersionA.toks, he, List.nil_append, List.cons_append] <;>
-    exact noWs_cons _ _ rfl
+  exact noWs_cons _ _ rfl
 
 theorem gap_head_not {P : Kind → Prop} (g : Gap) (more : List Tok) (hws : P .WHITESPACE) (hnl : P .NEWLINE)
     (hm : ∀ t, more.head? = some t → P t.1) : ∀ t, (gapToks g ++ more).head? = some t → P t.1 := by
@@ -136,7 +142,7 @@ theorem versionPart_ver (g : Gap) (v : VerPart) (more : List Tok) :
   have c := constraintLoop_op v.op (gapToks v.g3 ++ (v.ver.toks ++ (gapToks v.g4 ++ (Kind.R_PARENS, [')']) :: more)))
     (gap_head_not (P := fun k => k ≠ .L_ANGLE ∧ k ≠ .R_ANGLE ∧ k ≠ .EQUAL) _ _ (by decide) (by decide) (by
       intro t ht
-      cases he : v.ver.epoch <;> (simp [VersionA.toks, he] at ht; subst ht; simp)))
+      simp [VersionA.toks] at ht; subst ht; simp))
   have s3 := skipWs_gap v.g3 (v.ver.toks ++ (gapToks v.g4 ++ (Kind.R_PARENS, [')']) :: more)) (verToks_noWs _ _)
   have hnc : cur (gapToks v.g4 ++ (Kind.R_PARENS, [')']) :: more) ≠ some .COLON := by
     have := gap_head_not (P := fun k => k ≠ Kind.COLON) v.g4 ((Kind.R_PARENS, [')']) :: more)
